@@ -48,8 +48,9 @@ ImplDsdt(f) == IF Bug = "IgnoreXdsdt" THEN f.p32 ELSE IF f.p32 # 0 THEN f.p32 EL
 
 NextEntry ==
   /\ pc = "enum"
-  /\ IF Bug = "WidthSwapped" /\ Len(Entries) > 0
-     THEN /\ init' = "fault" /\ pc' = "finish" /\ UNCHANGED <<ei, map, rep>>       \* entries read with the wrong width are wild pointers
+  /\ IF \/ Bug = "WidthSwapped" /\ Len(Entries) > 0
+        \/ Bug = "Trunc32" /\ root = "xsdt" /\ (img.xhigh \/ \E i \in 1..Len(Entries) : img.tables[Entries[i]].high)
+     THEN /\ init' = "fault" /\ pc' = "finish" /\ UNCHANGED <<ei, map, rep>>       \* entries read with the wrong width / 64-bit addresses cut to 32 bits are wild pointers
      ELSE IF ei > Len(Entries)
      THEN /\ init' = "ok" /\ pc' = "finish" /\ UNCHANGED <<ei, map, rep>>
      ELSE LET i == Entries[ei]  t == img.tables[i] IN
